@@ -227,8 +227,61 @@ def rule_inputs_over_defaults(ctx: Ctx) -> None:
     ctx.floor("3-whole-arrays.merges", n, 1)
 
 
+def rule_caller_shapes_win(ctx: Ctx) -> None:
+    """The internal shapes handed to map() take precedence over the ones declared on the functions (`PipeFunc(internal_shape=)`):
+    where the two are merged, a declared shape only FILLS what the caller left open.  Structurally: every store into the mapping
+    that starts out as the caller's `internal_shapes` (or a copy of it) is a setdefault or sits under a membership test of that
+    mapping.  An unconditional store lets the declaration override the call: the output is allocated with the declared size and
+    a longer result is silently truncated (a shorter one raises IndexError)."""
+    P = ctx.prog
+    n = 0
+    for fn in P.functions_in("pipefunc.map._run_info"):
+        params = [p_ for p_ in fn.param_names() if p_ == "internal_shapes"]
+        if not params:
+            continue
+        p0 = params[0]
+        names = {p0}
+        for a in walk_no_nested(fn.node):  # copies: shapes = dict(internal_shapes) if internal_shapes else {}
+            if isinstance(a, (ast.Assign, ast.AnnAssign)) and a.value is not None and any(isinstance(x, ast.Name) and x.id == p0 for x in ast.walk(a.value)):
+                tg = a.targets if isinstance(a, ast.Assign) else [a.target]
+                names |= {t.id for t in tg if isinstance(t, ast.Name)}
+        par = {id(c): q for q in ast.walk(fn.node) for c in ast.iter_child_nodes(q)}
+        for st in walk_no_nested(fn.node):
+            if not (isinstance(st, ast.Assign) and any(isinstance(t, ast.Subscript) and isinstance(t.value, ast.Name) and t.value.id in names for t in st.targets)):
+                continue
+            if not any("internal_shape" in norm(x) for x in ast.walk(st.value) if isinstance(x, ast.Attribute)):
+                continue  # not the declared shape of a function
+            n += 1
+            store_key = next(norm(t.slice) for t in st.targets if isinstance(t, ast.Subscript))
+            tests: list[ast.Compare] = []  # membership tests of the mapping that decide whether the store runs
+            x: ast.AST = st
+            while id(x) in par:
+                child, x = x, par[id(x)]
+                if isinstance(x, ast.If):
+                    tests += [c for c in ast.walk(x.test) if isinstance(c, ast.Compare) and isinstance(c.ops[0], (ast.In, ast.NotIn)) and isinstance(c.comparators[0], ast.Name) and c.comparators[0].id in names]
+                if isinstance(x, (ast.For, ast.While)):
+                    # `if k in shapes: continue` earlier in the enclosing loop body
+                    for sib in x.body:
+                        if sib is child:
+                            break
+                        if isinstance(sib, ast.If) and sib.body and isinstance(sib.body[-1], ast.Continue):
+                            tests += [c for c in ast.walk(sib.test) if isinstance(c, ast.Compare) and isinstance(c.ops[0], ast.In) and isinstance(c.comparators[0], ast.Name) and c.comparators[0].id in names]
+            same_key = [c for c in tests if norm(c.left) == store_key]
+            ctx.tri("3-whole-arrays", fn, st, bool(same_key), not same_key, f"`{norm(st)[:50]}`: a declared internal shape only fills what the caller left open",
+                    (f"`{norm(st)[:60]}` stores the shape declared on the function under the key `{store_key}`, but the test that is meant to protect the caller's entries asks for `{norm(tests[0].left)}` "
+                     "(the whole output name - a tuple for a multi-output function, which is never a key): " if tests else f"`{norm(st)[:60]}` stores the shape declared on the function unconditionally: ") +
+                    "it overrides the `internal_shapes` the caller passed to map(), the output array is allocated with the declared size (a longer result is truncated silently, a shorter one raises IndexError)",
+                    key=f"caller-shapes-win {fn.name}")
+        for c in walk_no_nested(fn.node):  # the spelled-in form: shapes.setdefault(name, f.internal_shape)
+            if isinstance(c, ast.Call) and isinstance(c.func, ast.Attribute) and c.func.attr == "setdefault" and isinstance(c.func.value, ast.Name) and c.func.value.id in names and len(c.args) == 2 \
+                    and any("internal_shape" in norm(x_) for x_ in ast.walk(c.args[1]) if isinstance(x_, ast.Attribute)):
+                n += 1
+                ctx.add("3-whole-arrays", fn, c, True, f"`{norm(c)[:60]}`: a declared internal shape only fills what the caller left open", key=f"caller-shapes-win {fn.name}")
+    ctx.floor("3-whole-arrays.declared-shape-stores", n, 1)
+
+
 def check(ctx: Ctx) -> None:
-    for rule in (rule_inputs_over_defaults, rule_rank_domain, rule_foreign_key, rule_whole_arrays, rule_topological, rule_outputs):
+    for rule in (rule_caller_shapes_win, rule_inputs_over_defaults, rule_rank_domain, rule_foreign_key, rule_whole_arrays, rule_topological, rule_outputs):
         ctx.run(rule)
 
 
